@@ -498,7 +498,14 @@ func c08Server(seed int64, rounds int) {
 // one operation of every kind of that family the generators produce.
 var crashFamilies = []string{"list", "set", "zset", "hash", "str", "mixed"}
 
-func crashOps(seed int64, wl int) []*hx.Op {
+type crashCand struct {
+	op   *hx.Op
+	kind string // "" = part of the base history
+}
+
+// crashCandidates: the base history of the workload's family followed, kind by kind, by up to 8
+// occurrences of every kind of write the generators produce (deterministic, no database involved).
+func crashCandidates(seed int64, wl int) []crashCand {
 	fam := crashFamilies[wl%len(crashFamilies)]
 	usable := func(st *hx.Step) bool {
 		if st.Gen != nil || st.Block || len(st.Ops) != 1 || st.Ops[0].RunDB != nil && st.Ops[0].MultiMap {
@@ -516,26 +523,157 @@ func crashOps(seed int64, wl int) []*hx.Op {
 		p.ExpireProb = 0.1
 		p.MinSteps, p.MaxSteps = 20, 20
 	}, func(st *hx.Step) bool { return usable(st) && st.Ops[0].Write })
-	var ops []*hx.Op
-	// a base history
+	var out []crashCand
 	if len(pool.kinds) > 0 {
 		if c, ok := pool.Take(pool.kinds[0]); ok {
 			for _, st := range c.Hist.Steps {
 				if usable(st) {
-					ops = append(ops, st.Ops[0])
+					out = append(out, crashCand{st.Ops[0], ""})
 				}
 			}
 		}
 	}
-	// then every kind of write, twice
-	for round := 0; round < 2; round++ {
-		for _, k := range pool.kinds {
+	for _, k := range pool.kinds {
+		// a refill, used only when no occurrence of the kind does anything in the state reached
+		for _, op := range crashRefill(fam) {
+			out = append(out, crashCand{op, "refill:" + k})
+		}
+		for i := 0; i < 8; i++ {
 			if c, ok := pool.Take(k); ok {
-				ops = append(ops, c.Target.Ops[0])
+				out = append(out, crashCand{c.Target.Ops[0], k})
 			}
 		}
 	}
+	return out
+}
+
+// crashRefill puts a little of the family's data back under the usual key names.
+func crashRefill(fam string) []*hx.Op {
+	v := hx.VStr
+	switch fam {
+	case "list":
+		return []*hx.Op{hx.KDelete("k1", "k2"), hx.LPushBack("k1", v("a")), hx.LPushBack("k1", v("b")), hx.LPushBack("k1", v("a")), hx.LPushBack("k2", v("c")), hx.KDelete("k3")}
+	case "set":
+		return []*hx.Op{hx.KDelete("k1", "k2"), hx.EAdd("k1", v("a"), v("b"), v("c")), hx.EAdd("k2", v("b"), v("c"), v("")), hx.KDelete("k3")}
+	case "zset":
+		return []*hx.Op{hx.KDelete("k1", "k2"), hx.ZAdd("k1", v("a"), 1), hx.ZAdd("k1", v("b"), 2), hx.ZAdd("k2", v("b"), 5), hx.ZAdd("k2", v("c"), 0.5), hx.KDelete("k3")}
+	case "hash":
+		return []*hx.Op{hx.KDelete("k1", "k2"), hx.HSet("k1", "f1", v("1")), hx.HSet("k1", "f2", v("x")), hx.HSet("k2", "f1", v("2")), hx.KDelete("k3")}
+	default:
+		return []*hx.Op{hx.KDelete("k1", "k2", "k3"), hx.SSet("k1", v("5")), hx.SSet("k2", v("text")), hx.LPushBack("k3", v("a"))}
+	}
+}
+
+// crashSelect chooses the workload: the base history, then for every kind of write (twice round)
+// the next occurrence that CHANGES the content in the state reached so far - an operation that
+// does nothing has no crash behaviour worth looking at.  The choice is made once, on a scratch
+// database, and handed to the child processes as a list of indices.
+func crashSelect(seed int64, wl int) []int {
+	cands := crashCandidates(seed, wl)
+	db, err := redka.Open(fmt.Sprintf("file:/c09sel_%d_%d.db?vfs=memdb", time.Now().UnixNano(), wl), nil)
+	if err != nil {
+		return nil
+	}
+	defer db.Close()
+	x := &hx.Exec{DB: db}
+	var sel []int
+	used := map[int]bool{}
+	content := func() string { c, _ := hx.ContentOfDB(db); return c.Text }
+	for i, c := range cands {
+		if c.kind == "" {
+			c.op.Run(hxDB(db), x, c.op)
+			sel = append(sel, i)
+			used[i] = true
+		}
+	}
+	// candidates are grouped: refill:<kind> ..., <kind> ...
+	type group struct {
+		kind         string
+		refill, occs []int
+	}
+	var groups []*group
+	for i, c := range cands {
+		if c.kind == "" {
+			continue
+		}
+		k := strings.TrimPrefix(c.kind, "refill:")
+		if len(groups) == 0 || groups[len(groups)-1].kind != k {
+			groups = append(groups, &group{kind: k})
+		}
+		g := groups[len(groups)-1]
+		if strings.HasPrefix(c.kind, "refill:") {
+			g.refill = append(g.refill, i)
+		} else {
+			g.occs = append(g.occs, i)
+		}
+	}
+	tryOccs := func(g *group) bool {
+		for _, i := range g.occs {
+			if used[i] {
+				continue
+			}
+			before := content()
+			cands[i].op.Run(hxDB(db), x, cands[i].op)
+			if content() != before {
+				used[i] = true
+				sel = append(sel, i)
+				return true
+			}
+		}
+		return false
+	}
+	for round := 0; round < 2; round++ {
+		for _, g := range groups {
+			if tryOccs(g) {
+				continue
+			}
+			if round == 0 {
+				for _, i := range g.refill {
+					cands[i].op.Run(hxDB(db), x, cands[i].op)
+					sel = append(sel, i)
+				}
+				tryOccs(g)
+			}
+		}
+	}
+	return sel
+}
+
+var crashSelCache = map[string][]int{}
+
+// crashOps returns the chosen workload (in a child: the indices come from the parent).
+func crashOps(seed int64, wl int) []*hx.Op {
+	key := fmt.Sprintf("%d/%d", seed, wl)
+	sel, ok := crashSelCache[key]
+	if !ok {
+		if env := os.Getenv("HX_CRASH_SEL"); env != "" {
+			for _, f := range strings.Split(env, ",") {
+				n, _ := strconv.Atoi(f)
+				sel = append(sel, n)
+			}
+		} else {
+			sel = crashSelect(seed, wl)
+		}
+		crashSelCache[key] = sel
+	}
+	cands := crashCandidates(seed, wl)
+	var ops []*hx.Op
+	for _, i := range sel {
+		if i < len(cands) {
+			ops = append(ops, cands[i].op)
+		}
+	}
 	return ops
+}
+
+func crashSelEnv(seed int64, wl int) string {
+	crashOps(seed, wl)
+	sel := crashSelCache[fmt.Sprintf("%d/%d", seed, wl)]
+	parts := make([]string, len(sel))
+	for i, n := range sel {
+		parts[i] = strconv.Itoa(n)
+	}
+	return "HX_CRASH_SEL=" + strings.Join(parts, ",")
 }
 
 // crashChild runs the workload on the file and acknowledges every completed operation on stdout
@@ -817,7 +955,10 @@ func runC09(seed int64, n int, long bool) {
 	nwl := len(crashFamilies)
 	for wl := 0; wl < nwl && len(sum.Failures) == 0; wl++ {
 		probe := filepath.Join(dir, fmt.Sprintf("probe_%d.db", wl))
-		out, _ := exec.Command(self, "-child", probe, "-childseed", fmt.Sprint(seed), "-childwl", fmt.Sprint(wl)).Output()
+		selEnv := crashSelEnv(seed, wl)
+		pc := exec.Command(self, "-child", probe, "-childseed", fmt.Sprint(seed), "-childwl", fmt.Sprint(wl))
+		pc.Env = append(os.Environ(), selEnv)
+		out, _ := pc.Output()
 		var trace []string
 		var ackAt []int
 		var names []string
@@ -857,7 +998,9 @@ func runC09(seed int64, n int, long bool) {
 				if post {
 					args = append(args, "-childpost")
 				}
-				out, _ := exec.Command(self, args...).Output()
+				cc := exec.Command(self, args...)
+				cc.Env = append(os.Environ(), selEnv)
+				out, _ := cc.Output()
 				acked := -1
 				for _, l := range strings.Split(string(out), "\n") {
 					if strings.HasPrefix(l, "ACK ") {
